@@ -43,6 +43,11 @@ CLAIMED["C16"]=dict(
    text="Exploration: 4k (quick) / 150k (thorough) targets x 5-6 renderings. Found and fixed: diagnostics naming an implicit import depended on what the VM had compiled before.",
    note="every 4th case adds a rendering from a separate process; crashes make a case inconclusive here (judged by C02/C06/C09)",
    ref="6 C16")
+CLAIMED["C07"]=dict(
+   technique="grid enumeration + property-based testing of resource limits: parametrised recursion/allocation shapes x depth x stack limit x memory limit on child threads, with hook counters for peak stack and allocations above the limit; metamorphic relation for tail calls (n = 50 vs n large); interrupt cases driven from a second OS thread",
+   text="Exploration: the full grid of 14 shapes x N x 5 stack limits x up to 5 memory limits plus generated points; outcome must be the expected value or the configured limit's failure, no allocation may leave a heap above its limit, tail shapes keep their peak stack, the worker's 8 MiB native stack survives, interrupts return Interrupted within 2 s.",
+   note="one recorded known finding: the out-of-memory error message itself is allocated past the limit; the 2 s interrupt bound is the only wall-clock criterion",
+   ref="6 C07")
 NOT_YET = {}
 def main():
     props=[json.loads(l) for l in open('/verif/properties.jsonl')]
